@@ -1,3 +1,4 @@
+import numpy as np
 import scipy as sp
 
 from .linear_solver import LinearSolver, LinearSolverError
@@ -14,6 +15,18 @@ class MINRESSolver(LinearSolver):
         if initial_sol is not None:
             initial_sol = initial_sol()
 
+        # The stopping tests of scipy's MINRES are not invariant under
+        # scaling of the right-hand side (for large right-hand sides it
+        # returns early, reporting success): solve for a normalized one
+        scale = float(np.linalg.norm(rhs))
+
+        if scale > 0.0 and np.isfinite(scale):
+            rhs = rhs / scale
+            if initial_sol is not None:
+                initial_sol = initial_sol / scale
+        else:
+            scale = 1.0
+
         result = sp.sparse.linalg.minres(self.mat, rhs, x0=initial_sol)
 
         (sol, info) = result
@@ -21,4 +34,4 @@ class MINRESSolver(LinearSolver):
         if info != 0:
             raise LinearSolverError("MINRES failed with error code {}".format(info))
 
-        return sol
+        return sol * scale
